@@ -76,6 +76,7 @@ const (
 type GraphOpts struct {
 	MaxDocs     int      // 1..len(DocPool)+1
 	Spell       Spelling // allowed spellings
+	TwinPct     int      // probability of a twin document (structural copy of another one under another URL, see twin)
 	EmptyPct    int      // share of the non-`$ref` sub-schemas that are the empty schema {} (a target that is an empty object)
 	IDs         bool     // attach `id`s to some schemas (C04 only: ids change the resolution scope)
 	RelDirIDs   bool     // allow relative ids with a directory component (K1)
@@ -92,7 +93,7 @@ type GraphOpts struct {
 }
 
 func DefaultGraphOpts() GraphOpts {
-	return GraphOpts{MaxDocs: 5, Spell: SpellAll, RefPct: 35, CycleBias: 8, MaxElems: 3, SchemaDocs: true, DagPct: 40, QuoteNames: true}
+	return GraphOpts{MaxDocs: 5, Spell: SpellAll, RefPct: 35, CycleBias: 8, MaxElems: 3, SchemaDocs: true, DagPct: 40, QuoteNames: true, TwinPct: 20}
 }
 
 type target struct {
@@ -632,12 +633,137 @@ func Graph(t *rapid.T, o GraphOpts) GraphCase {
 		}
 		h.holder["$ref"] = ref
 	}
+	if o.TwinPct > 0 && len(urls) < maxDocs && Pct(t, "twin document", o.TwinPct) { // (the twin counts as a document: MaxDocs holds)
+		s.twin(urls, docs, spell)
+	}
 	out := GraphCase{Root: RootURL, Docs: map[string]string{}}
 	for u, d := range docs {
 		b, _ := json.Marshal(d)
 		out.Docs[u] = string(b)
 	}
 	return out
+}
+
+// twin adds a document that is a structural copy of one of the documents (same pointers, every label
+// suffixed) under an unused URL, preferably in the same folder, and redirects some of the `$ref`s that
+// designate the original to the same pointer of the copy: one `$ref` text (a fragment-only one above all) then
+// designates different things in two documents met during one expansion.
+func (s *gstate) twin(urls []string, docs map[string]map[string]any, spell Spelling) {
+	t := s.t
+	used := map[string]bool{}
+	for _, u := range urls {
+		used[u] = true
+	}
+	src := urls[Uniform(t, "twin of", len(urls))]
+	if strings.Contains(src, "?") {
+		return
+	}
+	dirOf := func(u string) string { return u[:strings.LastIndex(u, "/")+1] }
+	var same, other []string
+	for _, u := range DocPool {
+		if used[u] || strings.Contains(u, "?") {
+			continue
+		}
+		if dirOf(u) == dirOf(src) {
+			same = append(same, u)
+		} else {
+			other = append(other, u)
+		}
+	}
+	cands := same
+	if len(cands) == 0 || Pct(t, "twin elsewhere", 25) {
+		cands = append(cands, other...)
+	}
+	if len(cands) == 0 {
+		return
+	}
+	dst := cands[Uniform(t, "twin at", len(cands))]
+	var cp map[string]any
+	b, _ := json.Marshal(docs[src])
+	_ = json.Unmarshal(b, &cp)
+	delete(cp, "swagger")
+	delete(cp, "info")
+	var relabel func(n any)
+	relabel = func(n any) {
+		switch x := n.(type) {
+		case map[string]any:
+			for k, v := range x {
+				if sv, ok := v.(string); ok && (k == "title" || k == "format" || k == "x-label" || k == "x-items" || k == "description" || (k == "name" && x["in"] != nil)) {
+					x[k] = sv + "-tw"
+					continue
+				}
+				relabel(v)
+			}
+		case []any:
+			for _, e := range x {
+				relabel(e)
+			}
+		}
+	}
+	relabel(cp)
+	// the copy lives at another URL: its $refs that carry a path are spelled anew from there (same targets);
+	// the fragment-only ones stay as they are and now designate the copy's own members
+	var respell func(n any)
+	respell = func(n any) {
+		switch x := n.(type) {
+		case map[string]any:
+			if r, ok := x["$ref"].(string); ok && !strings.HasPrefix(r, "#") && r != "" {
+				if tp, err := model.Resolve(src, r); err == nil {
+					if nr := Spell(t, dst, tp, spell); nr != "" {
+						x["$ref"] = nr
+					}
+				}
+			}
+			keys := make([]string, 0, len(x))
+			for k := range x {
+				keys = append(keys, k)
+			}
+			sort.Strings(keys)
+			for _, k := range keys {
+				respell(x[k])
+			}
+		case []any:
+			for _, e := range x {
+				respell(e)
+			}
+		}
+	}
+	respell(cp)
+	// redirect (the copy keeps its own $refs: fragment-only ones now stay inside the copy)
+	holders := make([]string, 0, len(docs))
+	for u := range docs {
+		holders = append(holders, u)
+	}
+	sort.Strings(holders)
+	for _, u := range holders {
+		var walk func(n any)
+		walk = func(n any) {
+			switch x := n.(type) {
+			case map[string]any:
+				if r, ok := x["$ref"].(string); ok {
+					if tp, err := model.Resolve(u, r); err == nil && tp.Doc == src && Pct(t, "to the twin", 40) {
+						if nr := Spell(t, u, model.Pos{Doc: dst, Ptr: tp.Ptr}, spell); nr != "" {
+							x["$ref"] = nr
+						}
+					}
+				}
+				keys := make([]string, 0, len(x))
+				for k := range x {
+					keys = append(keys, k)
+				}
+				sort.Strings(keys)
+				for _, k := range keys {
+					walk(x[k])
+				}
+			case []any:
+				for _, e := range x {
+					walk(e)
+				}
+			}
+		}
+		walk(docs[u])
+	}
+	docs[dst] = cp
 }
 
 // plug turns a hole without any possible target into plain content.
